@@ -62,9 +62,74 @@ func runQueuedEmpty(c QCase) pbt.Outcome {
 	return pbt.Outcome{Evals: 1, NonTrivial: c.Closed && c.Fill >= 1 && c.Limit > c.Fill, Labels: []string{"zero-sized-elements"}}
 }
 
+// element types of 4104 bytes, 8 KiB and 64 KiB - 8 (the largest a channel takes is 64 KiB - 1)
+type big4k [513]int64
+type big8k [1024]int64
+type big64k [8191]int64
+
+func runQueuedBig[E any](c QCase, mk func(int) E, un func(E) int, name string) pbt.Outcome {
+	ch := make(chan E, c.Cap)
+	for i := 1; i <= c.Fill; i++ {
+		ch <- mk(i * 7)
+	}
+	if c.Closed {
+		close(ch)
+	}
+	var got []E
+	var pan any
+	func() {
+		defer func() { pan = recover() }()
+		if c.Full {
+			buf := make([]E, max(c.Limit, 0))
+			n := chans.RecvQueuedFull(ch, buf)
+			got = buf[:n]
+		} else {
+			got = chans.RecvQueued(ch, c.Limit)
+		}
+	}()
+	if pan != nil {
+		return pbt.Fail("%s on a chan %s (cap=%d fill=%d closed=%v) panicked: %v", fn(c), name, c.Cap, c.Fill, c.Closed, pan)
+	}
+	want := min(c.Fill, max(c.Limit, 0))
+	if len(got) != want {
+		return pbt.Fail("%s on a chan %s (cap=%d fill=%d closed=%v) returned %d values, want exactly the %d queued ones (nothing added that was never sent)", fn(c), name, c.Cap, c.Fill, c.Closed, len(got), want)
+	}
+	for i, v := range got {
+		if un(v) != (i+1)*7 {
+			return pbt.Fail("%s on a chan %s returned %d at position %d, want %d", fn(c), name, un(v), i, (i+1)*7)
+		}
+	}
+	if len(ch) != c.Fill-want {
+		return pbt.Fail("after %s on a chan %s %d values are left, want %d", fn(c), name, len(ch), c.Fill-want)
+	}
+	return pbt.Outcome{Evals: 1, NonTrivial: c.Closed && c.Fill >= 1 && c.Limit > c.Fill, Labels: []string{"elements-of-" + name}}
+}
+
 func RunQueued(c QCase) pbt.Outcome {
-	if c.Kind == 3 {
+	switch c.Kind {
+	case 3:
 		return runQueuedEmpty(c)
+	case 4:
+		return runQueuedBig(c, func(v int) big4k { var b big4k; b[0], b[512] = int64(v), int64(v); return b }, func(b big4k) int {
+			if b[0] != b[512] {
+				return -1
+			}
+			return int(b[0])
+		}, "[513]int64")
+	case 5:
+		return runQueuedBig(c, func(v int) big8k { var b big8k; b[0], b[1023] = int64(v), int64(v); return b }, func(b big8k) int {
+			if b[0] != b[1023] {
+				return -1
+			}
+			return int(b[0])
+		}, "[1024]int64")
+	case 6:
+		return runQueuedBig(c, func(v int) big64k { var b big64k; b[0], b[8190] = int64(v), int64(v); return b }, func(b big64k) int {
+			if b[0] != b[8190] {
+				return -1
+			}
+			return int(b[0])
+		}, "[8191]int64")
 	}
 	ch := make(chan int, c.Cap)
 	for i := 1; i <= c.Fill; i++ {
@@ -213,7 +278,7 @@ func fn(c QCase) string {
 
 var specQueued = pbt.Register(&pbt.Spec[QCase]{
 	Property: "C19", Name: "C19.queued",
-	Rule: "exhaustive grid: {RecvQueued, RecvQueuedFull} x channel kind {chan, <-chan, named} x capacity 0..6 x fill 0..cap x closed? x limit -1..8 (RecvQueuedFull also with 1 and 3 slots of spare capacity behind the buffer), plus capacities 33..300 with limits around 32/64/100/1000, plus the zero-sized element type chan struct{} (thorough: capacity 0..12, limit -1..14); queued values are non-zero serials; " +
+	Rule: "exhaustive grid: {RecvQueued, RecvQueuedFull} x channel kind {chan, <-chan, named} x capacity 0..6 x fill 0..cap x closed? x limit -1..8 (RecvQueuedFull also with 1 and 3 slots of spare capacity behind the buffer), plus capacities 33..300 with limits around 32/64/100/1000, plus element types of 4104 bytes, 8 KiB and 64 KiB - 8 (capacity 0..3), plus the zero-sized element type chan struct{} (thorough: capacity 0..12, limit -1..14); queued values are non-zero serials; " +
 		"oracle: result == the first min(fill,limit) queued values in FIFO order, the remainder still in the channel in order, nothing else (no zero padding after close), untouched buffer slots untouched, " +
 		"and the call never blocks (the call runs in a goroutine; 'blocked' is established from its goroutine state, not from a timer); non-trivial = closed with fill>=1 and limit>fill",
 	Enum: func(shard, shards int, tier string, yield func(QCase) bool) {
@@ -249,6 +314,22 @@ var specQueued = pbt.Register(&pbt.Spec[QCase]{
 					for _, fill := range []int{cp, cp - 1, 33} {
 						for _, closed := range []bool{false, true} {
 							for _, lim := range []int{31, 32, 33, 34, 64, 65, 100, 1000} {
+								if !yield(QCase{Full: full, Cap: cp, Fill: fill, Closed: closed, Limit: lim, Kind: kind}) {
+									return
+								}
+							}
+						}
+					}
+				}
+			}
+		}
+		// element types of 4 KiB and more (a channel takes elements of up to 64 KiB - 1)
+		for _, full := range []bool{false, true} {
+			for kind := 4; kind <= 6; kind++ {
+				for cp := 0; cp <= 3; cp++ {
+					for fill := 0; fill <= cp; fill++ {
+						for _, closed := range []bool{false, true} {
+							for _, lim := range []int{0, 1, 2, 5} {
 								if !yield(QCase{Full: full, Cap: cp, Fill: fill, Closed: closed, Limit: lim, Kind: kind}) {
 									return
 								}
